@@ -97,8 +97,13 @@ StructDecls == DeclsG \cup ShapesA \cup DeclsB \cup DeclsC \cup DeclsD \cup Decl
 
 -----------------------------------------------------------------------------
 (* Enums *)
-VName(c) == <<c, c + 32>>       \* "Aa" ..
-VNames == <<67, 65, 66>>        \* declaration order Cc Aa Bb: sorting permutes it
+\* Declaration order "Bb", "BC", "Ab".  Sorting by identifier (byte-wise String order, as the
+\* macro does) gives Ab < BC < Bb; a case-insensitive order would give Ab < Bb < BC.
+VNameOf == [c \in {65, 66, 67, 88, 89} |->
+             IF c = 67 THEN <<66, 98>> ELSE IF c = 65 THEN <<66, 67>> ELSE IF c = 66 THEN <<65, 98>>
+             ELSE IF c = 88 THEN <<88, 120>> ELSE <<88, 90>>]        \* Xx, XZ: after all others, and XZ < Xx
+VName(c) == VNameOf[c]
+VNames == <<67, 65, 66>>
 VFields(shape, ts) == [i \in 1..Len(ts) |->
     Fld(IF shape = "tuple" THEN VariantFieldName(i - 1) ELSE Nm(119 + i), ts[i],
         IF ts[i].k = "opt" THEN "Option" ELSE "plain", FALSE, <<>>)]
